@@ -69,6 +69,15 @@ var checks = []Check{
 		Assumptions: []string{"single task; the property's exactly-once clause is checked on every maximal run of attempts that consult the same choice points"},
 		MustProbe:   []string{"full_window_checked", "structure_change_under_retry", "same_label_after_commit", "label_change", "depth_ge_3"}, MinRunsForProbes: 2000,
 	},
+	{
+		ID: "C12", Pkg: "checks/c12", Instr: coreInstr,
+		QuickRuns: 200000, ThoroughRuns: 20000000, QuickBudgetS: 45, ThoroughBudgetS: 900, ShrinkS: 30,
+		Rule: "one run = 2-5 replicas of one CRDT type (GCounter, AWORSet or LWWSet), 4-43 drawn actions: local update (increment 1-5; add/remove of one of 1-4 elements, clock advanced 1-5 ms first so LWW timestamps are distinct), send full state (gob-encoded) to a peer, deliver any in-flight state (reordering), deliver and keep (duplication), drop; after every update and merge the replica's Read is compared with a reference model evaluated on the set of updates it knows; at the end replicas with equal knowledge must read equally, and commutativity, associativity, idempotence, inflation, gob round-trip and merge-equals-union are judged observationally on up to 24 reached states; non-trivial = at least 2 updates and a reorder/duplicate or a law check; distinct = distinct action-sequence digests",
+		Real:        []string{"distsys/resources GCounter, AWORSet, LWWSet (Init/Read/Write/Merge/GobEncode/GobDecode) — real", "encoding/gob — real", "distsys/tla values — real"},
+		Stub:        []string{"transport between replicas: harness message pool (reorder, duplicate, drop, delay); the CRDT *resource* (crdt.go broadcast/merge goroutines) is exercised by C13, not here", "time.Now: synctest fake clock"},
+		Assumptions: []string{"LWW timestamps are distinct in every judged run (ties are outside the statement)", "state equality is judged observationally (Read now and after identical continuations), so representation differences without observable effect are not reported"},
+		MustProbe:   []string{"kind_GCounter", "kind_AWORSet", "kind_LWWSet", "has_remove", "equal_knowledge_pair"}, MinRunsForProbes: 2000,
+	},
 }
 
 func findCheck(id string) *Check {
